@@ -143,6 +143,16 @@ func HKeyValue() {
 			nd.Assert(err == nil && has == stored[i], "has reports exactly the keys stored")
 		}
 	}
+	// after the history: every key is reported and read as the abstract map has it
+	for i := range keys {
+		has, err := st.Has(ctx, keys[i])
+		nd.Assert(err == nil && has == stored[i], "after the history, has reports exactly the keys stored")
+		got, err := st.Get(ctx, keys[i])
+		nd.Assert((err == nil) == stored[i], "after the history, get succeeds exactly for the keys stored")
+		if err == nil && stored[i] {
+			nd.Assert(nd.EqBytes(got, vals[i]), "after the history, get returns the content put")
+		}
+	}
 	// nothing outside the base directory was touched
 	for p := range FS.files {
 		nd.Assert(p == "/" || p == "/b" || strings.HasPrefix(p, "/b/"), "nothing is created outside the base directory")
